@@ -22,6 +22,16 @@ class ActionPath(object):
         self._line_base = None
         self._normalise(model)
 
+    @staticmethod
+    def _into_scratch(dst):
+        """is dst an address inside the scanner's scratch buffer (cfg_qstring / a fresh reallocation of it)"""
+        b = dst
+        while b[0] == 'idx':
+            b = b[1]
+        if b[0] == 'ld' and b[1] == ('g', '@cfg_qstring'):
+            return True
+        return b[0] == 'call' and b[1] in ('realloc', 'reallocarray', 'malloc', 'calloc')
+
     def _normalise(self, model):
         eff = self.effects
         for e in self.events:
@@ -38,6 +48,25 @@ class ActionPath(object):
                 elif n in ('free', 'fclose', 'cfg_scan_fp_end', 'cfg_scan_fp_begin', 'sscanf', '__isoc99_sscanf',
                            'trim_whitespace', 'strlen', 'strchr', 'memset', 'llvm.memset.p0i8.i64'):
                     eff.append(('call', n, e.args, e))
+                elif n in ('llvm.memcpy.p0i8.p0i8.i64', 'memcpy') and len(e.args) >= 3 and self._into_scratch(e.args[0]):
+                    # a run of bytes appended to the scratch buffer in one go: memcpy(buf + index, src, n)
+                    src, cnt = e.args[1], e.args[2]
+                    k = next((k_ for k_ in range(0, 8) if _yytext_plus(src, k_)), None)
+                    whole = cnt[0] == 'call' and cnt[1] == 'strlen' and any(
+                        x.kind == 'call' and x.res == cnt and x.args and x.args[0] == src for x in self.events)
+                    if k is not None and whole:
+                        # the rest of the matched text from byte k on: the same as copying it byte by byte in a loop
+                        byte = ('ld', ('ld', YYTEXT)) if k == 0 else ('ld', ('idx', ('ld', YYTEXT), ('c', k)))
+                        eff.append(('qputc', byte, True, e))
+                    elif src[0] == 'alloca' and sym.is_const(cnt) and cnt[1] == 1:
+                        # one byte handed over through a local (qputc() written as "append a run of one")
+                        val = next((x.val for x in reversed(self.events[:self.events.index(e)]) if x.kind == 'store' and x.addr == src), None)
+                        if val is not None:
+                            eff.append(('qputc', val, e.in_loop, e))
+                        else:
+                            eff.append(('call', n, e.args, e))
+                    else:
+                        eff.append(('call', n, e.args, e))
                 elif n in HELPERS:
                     pass   # inlined: their bodies follow
                 else:
@@ -61,6 +90,8 @@ class ActionPath(object):
                             self._line_total = 0
                         inc = tot - self._line_total
                         self._line_total = tot
+                    if inc is None and v[0] == 'ld' and sym.field_of(v[1]) == 'line' and sym.norm(v[1]) == sym.norm(e.addr):
+                        inc = 0          # "line += n" with n == 0 on this path
                     eff.append(('line', inc, e.in_loop, v, e))
                 elif f == '@cfg_yylval':
                     eff.append(('yylval', e.val, e))
